@@ -126,9 +126,9 @@ MAcqCv ==
 
 Blocking(d) == st[d] \in {"ABSENT", "PENDING", "WAITING"}
 BadHard(t)  == \E d \in Hard(t) : st[d] \in {"FAILED", "SKIPPED"}
-UpToDate(t) == \/ Deps(t) = {}
-               \/ \E d \in Deps(t) : clk[d] = "none"     \* last_end_time gives None: treated as no dependency
-               \/ (clk[t] # "none" /\ \A d \in Deps(t) : EndLeqStart(d, t))
+(* dependencies that never ran have no clocks and are ignored (last_end_time) *)
+UpToDate(t) == LET D == {d \in Deps(t) : clk[d] # "none"} IN
+               D = {} \/ (clk[t] # "none" /\ \A d \in D : EndLeqStart(d, t))
 (* decide_new_state, evaluated atomically under the environment lock *)
 Decision(t) == IF \E d \in Deps(t) : Blocking(d)       THEN "WAITING"
                ELSE IF BadHard(t)                       THEN "SKIPPED"
